@@ -1,8 +1,8 @@
 INIT Init
 NEXT Next
 CONSTANTS
-  Part = "listans"
-  Big = TRUE
+  Part = "lnest"
+  Big = FALSE
 INVARIANT LawTablesDescriptor
 INVARIANT LawTablesDefaults
 INVARIANT LawTablesNeutral
